@@ -76,9 +76,16 @@ impl Table {
 }
 fn nparams(segs: &Value) -> usize { arr(segs).iter().filter(|sg| s(&sg["k"]) == "P").count() }
 
+/// every fourth parameterless handler answers with a stream (a chunked `text/event-stream` body) instead of a plain payload:
+/// what HEAD leaves out must not depend on the kind of content the GET handler produces
 macro_rules! handler_for { ($np:expr, $id:expr) => {{ let id = $id; match $np {
-    0 => HandlerKind::H0(id), 1 => HandlerKind::H1(id), _ => HandlerKind::H2(id) } }} }
-enum HandlerKind { H0(i64), H1(i64), H2(i64) }
+    0 if is_stream_handler(id) => HandlerKind::S0(id), 0 => HandlerKind::H0(id), 1 => HandlerKind::H1(id), _ => HandlerKind::H2(id) } }} }
+enum HandlerKind { H0(i64), S0(i64), H1(i64), H2(i64) }
+pub fn is_stream_handler(id: i64) -> bool { id % 4 == 3 }
+fn stream0(id: i64) -> ohkami::sse::DataStream<String> {
+    log("handler", id);
+    ohkami::sse::DataStream::new(move |mut h: ohkami::sse::handle::Stream<String>| async move { h.send(format!("h{id}")) })
+}
 
 fn echo0(id: i64) -> String { log("handler", id); format!("h{id}") }
 
@@ -91,6 +98,7 @@ fn with_methods(mut hs: v::HandlerSet, methods: &[Value], np: usize, id: i64, lo
     } } }
     macro_rules! reg_all { ($m:ident) => { match handler_for!(np, id) {
         HandlerKind::H0(id) => reg!(hs, $m, move || async move { echo0(id) }),
+        HandlerKind::S0(id) => reg!(hs, $m, move || async move { stream0(id) }),
         HandlerKind::H1(id) => reg!(hs, $m, move |p: String| async move { log("handler", id); got(&[&p]); format!("h{id}|{p}") }),
         HandlerKind::H2(id) => reg!(hs, $m, move |(p, q): (String, String)| async move { log("handler", id); got(&[&p, &q]); format!("h{id}|{p}|{q}") }),
     } } }
@@ -142,7 +150,9 @@ pub fn exec(router: &v::VRouter, raw: &[u8], head: bool) -> (util::ParsedRespons
         v::send(res, &mut out).await;
         out
     });
-    (util::parse_response(&out, head), LOG.with(|l| l.borrow().clone()))
+    let mut p = util::parse_response(&out, head);
+    p.after = out.len().saturating_sub(p.consumed);      // for a HEAD request: whatever was written after the head
+    (p, LOG.with(|l| l.borrow().clone()))
 }
 
 pub fn run(scn: &Value) -> Value {
@@ -159,9 +169,11 @@ pub fn run(scn: &Value) -> Value {
         let (p, lg) = exec(&router, &raw, head);
         let body = String::from_utf8_lossy(&p.body).to_string();
         let h = lg.iter().find(|(k, _)| *k == "handler").map(|(_, id)| *id).unwrap_or(0);
+        // a stream handler's echo arrives as one event of a chunked event stream
+        let body = if is_stream_handler(h) && PARAMS.with(|p| p.borrow().is_empty()) && p.framing == "chunked" { body.strip_prefix("data: ").and_then(|b| b.strip_suffix("\n\n")).unwrap_or("?").to_string() } else { body };
         let params: Vec<Value> = PARAMS.with(|p| p.borrow().iter().map(|x| t.unchars(x)).collect());
         let echoed = !head && h != 0 && body == std::iter::once(format!("h{h}")).chain(PARAMS.with(|p| p.borrow().clone())).collect::<Vec<_>>().join("|");
-        res.push(json!({"status": p.status, "h": h, "params": params, "blen": p.body.len() as i64, "wf": p.error.is_empty(),
+        res.push(json!({"status": p.status, "h": h, "params": params, "blen": if head { p.after as i64 } else { p.body.len() as i64 }, "wf": p.error.is_empty(),
                         "echo": echoed,
                         "log": lg.iter().map(|(k, id)| json!([k, id])).collect::<Vec<_>>()}));
     }
@@ -205,6 +217,8 @@ pub fn gen(rng: &mut Rng, idx: usize) -> Value {
         if !mounted[a] { continue }
         // an application with a child mounted at its root has no room for routes of its own (mount prefixes are exclusive)
         if apps[a].1.iter().any(|it| s(&it["t"]) == "mount" && arr(&it["segs"]).is_empty()) { continue }
+        // a wall: a mounted application with fangs and no route of its own (every request under its prefix ends in 404 behind its fangs)
+        if c04 && a > 0 && !apps[a].0.is_empty() && rng.chance(1, 4) { continue }
         let nr = rng.range(1, 4);
         for _ in 0..nr {
             let n = rng.below(4);
